@@ -192,7 +192,7 @@ def _parse_slice(pattern):
 
     segs = pattern.split(":", 2)
     start = segs[0] and int(segs[0]) or 0
-    stop = segs[1] and int(segs[1]) or None
+    stop = int(segs[1]) if segs[1] else None
 
     if len(segs) < 3:
         return (SLICE, slice(start, stop))
